@@ -95,9 +95,44 @@ func drawCleanCase(t *simrt.Tape, thorough bool) []cleanSeq {
 			add(variantOf(t, seqs[t.Choose(len(seqs))])) // star or chain
 		}
 	}
+	// motif: a sequence X with two fathers of very different abundance and sons of its own
+	// whose added weight exceeds the smaller father's (the shape on which a ratio filter
+	// applied to weights instead of counts removes a true link)
+	fixed := map[string]int{}
+	if t.Choose(3) == 0 && len(seqs) > 0 {
+		x := seqs[t.Choose(len(seqs))]
+		fixed[x] = 10
+		for k, c := range []int{12, 200} {
+			for tries := 0; tries < 20; tries++ {
+				f := variantOf(t, x)
+				if !seen[f] {
+					add(f)
+					fixed[f] = c + k
+					break
+				}
+			}
+		}
+		for k := 0; k < 3; k++ {
+			for tries := 0; tries < 20; tries++ {
+				sn := variantOf(t, x)
+				if !seen[sn] {
+					add(sn)
+					fixed[sn] = 8 - k
+					break
+				}
+			}
+		}
+	}
 	out := []cleanSeq{}
 	for i, s := range seqs {
 		c := cleanSeq{ID: fmt.Sprintf("c%03d", i), Seq: s, Counts: map[string]int{}}
+		if fc, ok := fixed[s]; ok {
+			for _, smp := range samples {
+				c.Counts[smp] = fc
+			}
+			out = append(out, c)
+			continue
+		}
 		for _, smp := range samples {
 			if t.Choose(5) == 0 && len(c.Counts) > 0 {
 				continue
@@ -361,6 +396,24 @@ func runC13(rc *RunCtx) {
 		}
 		if h, ok := r.Annot["obiclean_head"].(bool); !ok || h != expHead[s.ID] {
 			rc.Violate("C13/exactness/head-flag", "record %s: obiclean_head=%v, expected %v", s.ID, r.Annot["obiclean_head"], expHead[s.ID])
+			return
+		}
+		wantFathers := map[string]bool{}
+		for smp, ca := range s.Counts {
+			for _, b := range seqs {
+				if cb, ok := b.Counts[smp]; ok && b.ID != s.ID && cb > ca && oneDiff(s.Seq, b.Seq) {
+					wantFathers[b.ID] = true
+				}
+			}
+		}
+		gotFathers := map[string]bool{}
+		if mm, ok := r.Annot["obiclean_mutation"].(map[string]any); ok {
+			for fid := range mm {
+				gotFathers[fid] = true
+			}
+		}
+		if fmt.Sprint(sortedKeys(gotFathers)) != fmt.Sprint(sortedKeys(wantFathers)) {
+			rc.Violate("C13/exactness/links", "record %s (%s): linked to %v, but its strictly more abundant one-difference neighbours are %v", s.ID, s.Seq, sortedKeys(gotFathers), sortedKeys(wantFathers))
 			return
 		}
 		if mm, ok := r.Annot["obiclean_mutation"].(map[string]any); ok {
